@@ -204,9 +204,12 @@ class Abs(Logic):
         
     def structureName(self):
         if (self.a.getWidth() == self.r.getWidth()):
-            return f'Abs{self.a.getWidth()}'
+            s = f'Abs{self.a.getWidth()}'
         else:
-            return f'Abs{self.a.getWidth()}_{self.r.getWidth()}'
+            s = f'Abs{self.a.getWidth()}_{self.r.getWidth()}'
+        if (len(self.outPorts) > 1):
+            s += '_inv'  # the optional `inverted` output changes the interface
+        return s
 
 
 class Neg(Logic):
